@@ -23,12 +23,14 @@ Definition set_site (o : pobj) (site : Z) : pobj :=
     if memn idx (psites o) then o else {| pseq := pseq o; psites := psites o ++ [idx] |}
   else o.
 
-Inductive pop := PSet (req : list Z) | PClear.
+(* PQuery: a read-only query point (kappa and kappa-after-phosphorylation are observed); no state change *)
+Inductive pop := PSet (req : list Z) | PClear | PQuery.
 
 Definition pstep (o : pobj) (op : pop) : pobj :=
   match op with
   | PSet req => fold_left set_site req o
   | PClear => {| pseq := pseq o; psites := [] |}
+  | PQuery => o
   end.
 
 Definition prun (ops : list pop) (o : pobj) : pobj := fold_left pstep ops o.
@@ -80,11 +82,15 @@ Fixpoint laa_eqb (a b : list aa) : bool :=
   end.
 
 (* per op: what get_phosphosites / get_phosphosequence / get_sequence answered afterwards *)
-Definition step_ok (o : pobj) (obs : list Z * string * string) : bool :=
-  let '(sites, pseq_s, seq_s) := obs in
-  lz_eqb sites (get_sites o) && laa_eqb (sq pseq_s) (phosphoseq o) && laa_eqb (sq seq_s) (pseq o).
+Definition step_ok (o : pobj) (obs : list Z * string * string * option (Q * Q)) : bool :=
+  let '(sites, pseq_s, seq_s, kk) := obs in
+  lz_eqb sites (get_sites o) && laa_eqb (sq pseq_s) (phosphoseq o) && laa_eqb (sq seq_s) (pseq o) &&
+  match kk with
+  | None => true
+  | Some (k, ka) => kappa_ok (pat (pseq o)) k && kappa_ok (pat (phosphoseq o)) ka
+  end.
 
-Fixpoint run_ok (o : pobj) (h : list (pop * (list Z * string * string))) : bool * pobj :=
+Fixpoint run_ok (o : pobj) (h : list (pop * (list Z * string * string * option (Q * Q)))) : bool * pobj :=
   match h with
   | [] => (true, o)
   | (op, obs) :: h' =>
@@ -110,7 +116,7 @@ Fixpoint entries_ok (es : list entry) (sts : list (list bool * list aa)) : bool 
 
 (* (sequence, history of (op, observation), kappa_after_phosphorylation, all S/T/Y positions,
     the full distribution when it was requested) *)
-Definition check_c16 (c : string * list (pop * (list Z * string * string)) * Q * list Z * option (list entry)) : bool :=
+Definition check_c16 (c : string * list (pop * (list Z * string * string * option (Q * Q))) * Q * list Z * option (list entry)) : bool :=
   let '(str, h, ka, stys, dist) := c in
   let o0 := {| pseq := sq str; psites := [] |} in
   let '(ok, o) := run_ok o0 h in
